@@ -6,6 +6,8 @@ processed by the real worker loop run inline).
 """
 from __future__ import annotations
 
+import collections
+
 from hypothesis import strategies as st
 from lxml import etree
 
@@ -35,6 +37,9 @@ def st_history():
         'target': st.one_of(st.just('new'), st.integers(0, 5), st.just('unknown')),
         'assoc': st.sampled_from(ASSOC + ['Assoc', 'Assoc']),
         'given': st.one_of(st.none(), st.sampled_from(['Ann', 'Bob', 'Ünal', ''])),
+        # which context descriptor the proposal belongs to: 0 = the operation target (patient), 1.. = the others
+        # (location, ...) of the same MDS - "for one or several context descriptors"
+        'descr': st.sampled_from([0, 0, 0, 1, 1, 2]),
     })
     step = st.one_of(
         st.tuples(st.just('set_ctx'), st.lists(proposal, min_size=1, max_size=3)).map(list),
@@ -59,9 +64,14 @@ class Runner:
         for d in self.mdib.descriptions.objects:
             if type(d).__name__ == 'SetContextStateOperationDescriptorContainer':
                 self.op_handle, self.op_target = d.Handle, d.OperationTarget
+        ctx_descr = [h for h, _c in inv.context_descriptors if h != self.op_target]
+        same_mds = [h for h in ctx_descr if h.endswith(self.op_target.split('.')[-1])] or ctx_descr
+        self.ctx_descriptors = [self.op_target] + [h for h in same_mds if h == self.loc_descr] + [
+            h for h in same_mds if h != self.loc_descr]
         self.prev = self.assoc_map()
         self.changes = {}
         self.multi = False
+        self.other_descr = False
         self.findings = []
 
     def close(self):
@@ -151,18 +161,21 @@ class Runner:
             result_state = None
         else:
             client = self.consumer.client('Context')
-            existing = sorted(s.Handle for s in mdib.context_states.objects if s.DescriptorHandle == self.op_target)
             proposals = []
-            assoc_count = 0
+            assoc_count = collections.Counter()
             unknown = False
             used = set()
             pm = mdib.data_model.pm_types
             for p in step[1]:
                 t = p['target']
+                target_descr = self.ctx_descriptors[p.get('descr', 0) % len(self.ctx_descriptors)]
+                if target_descr != self.op_target:
+                    self.other_descr = True
+                existing = sorted(s.Handle for s in mdib.context_states.objects if s.DescriptorHandle == target_descr)
                 if t == 'new' or (isinstance(t, int) and not existing):
-                    st_ = client.mk_proposed_context_object(self.op_target)
+                    st_ = client.mk_proposed_context_object(target_descr)
                 elif t == 'unknown':
-                    st_ = client.mk_proposed_context_object(self.op_target)
+                    st_ = client.mk_proposed_context_object(target_descr)
                     st_.Handle = 'vf_no_such_state'  # differs from the descriptor handle: an update of an unknown state
                     unknown = True
                 else:
@@ -170,7 +183,7 @@ class Runner:
                     if h in used:
                         continue
                     used.add(h)
-                    st_ = client.mk_proposed_context_object(self.op_target, h)
+                    st_ = client.mk_proposed_context_object(target_descr, h)
                 assoc = p['assoc']
                 if st_.ContextAssociation.value == 'Assoc' and assoc in ('No', 'Pre'):
                     assoc = 'Dis'  # an associated context can only be left by disassociating it (BICEPS life cycle)
@@ -178,13 +191,13 @@ class Runner:
                 if p['given'] is not None and hasattr(st_, 'CoreData'):
                     st_.CoreData.Givenname = p['given']
                 if assoc == 'Assoc':
-                    assoc_count += 1
+                    assoc_count[target_descr] += 1
                 proposals.append(st_)
             if not proposals:
                 return
             if len(proposals) >= 2:
                 self.multi = True
-            expect_reject = unknown or assoc_count > 1
+            expect_reject = unknown or any(n > 1 for n in assoc_count.values())
             try:
                 future = client.set_context_state(self.op_handle, proposals)
                 self.world.run_sco()
@@ -227,7 +240,8 @@ def case_fn(ctx, history):
     finally:
         r.close()
     nontrivial = r.multi or any(n >= 3 for n in r.changes.values())
-    ctx.case(history, nontrivial, 'history', classes=tuple({s[0] for s in history}) + (('multi',) if r.multi else ()))
+    ctx.case(history, nontrivial, 'history', classes=tuple({s[0] for s in history}) + (('multi',) if r.multi else ()) + (
+                 ('several-descriptors',) if r.other_descr else ()))
     return findings
 
 
